@@ -22,6 +22,7 @@ import (
 	"strings"
 	"sync"
 	"testing"
+	"time"
 
 	"github.com/dominant-strategies/go-quai/common"
 	"github.com/dominant-strategies/go-quai/consensus/misc"
@@ -203,6 +204,14 @@ func checkRewards(n *sim.Net, ul *unlockLog, rewardOnly map[common.AddressBytes]
 			ul.mu.Lock()
 			got, seen := ul.m[b.Hash()]
 			ul.mu.Unlock()
+			// the node publishes the credits of a block on an event feed consumed by a goroutine of
+			// this harness: give the event time to arrive before judging its absence
+			for w := 0; !seen && len(want) > 0 && w < 1500; w++ {
+				time.Sleep(2 * time.Millisecond)
+				ul.mu.Lock()
+				got, seen = ul.m[b.Hash()]
+				ul.mu.Unlock()
+			}
 			if seen || len(want) > 0 {
 				ws, gs := renderUnlocks(want), renderUnlocks(got)
 				if ws != gs {
